@@ -30,10 +30,13 @@ func makeCodec(cmap *cmap.File, toUnicode *cmap.ToUnicodeFile) *charcode.Codec {
 	// First try to use the the union of the code space ranges from the CMap
 	// and the ToUnicode cmap.  If this fails, remove code space ranges from
 	// the end one by one until we find a working codec.
+	// a CMap which uses another CMap inherits its code space ranges
 	var csr charcode.CodeSpaceRange
-	for _, r := range cmap.CodeSpaceRange {
-		if r.IsValid() {
-			csr = append(csr, r)
+	for g := cmap; g != nil; g = g.Parent {
+		for _, r := range g.CodeSpaceRange {
+			if r.IsValid() {
+				csr = append(csr, r)
+			}
 		}
 	}
 	if toUnicode != nil {
